@@ -270,7 +270,7 @@ def build_cases(tier: str):
         from mc.lang import aggfam
         naggs = 0
         for ctx, text in aggfam.queries(backend):
-            if text not in seen and (tier != "quick" or backend == "atlas" or ctx.split(":")[0] in ("ev-tuple", "obj-stream", "obj-sum")):
+            if text not in seen and (tier != "quick" or backend == "atlas" or ctx.split(":")[0] in ("ev-tuple", "obj-stream", "obj-sum", "ev-seed", "obj-seed")):
                 seen.add(text)
                 naggs += 1
                 cases.append(Case(pid, backend, text, md, {"k": "aggregate:" + ctx, "ndev": 0}))
@@ -285,8 +285,17 @@ def build_cases(tier: str):
                 nstruct += 1
                 cases.append(Case(pid, backend, text, md, {"k": "struct:" + ctx, "ndev": 0}))
                 pid += 1
+        # one collection bound to a lambda parameter and used at several loop depths of the next step
+        from mc.lang import seqparam
+        nseqp = 0
+        for ctx, text in seqparam.queries(backend):
+            if text not in seen:
+                seen.add(text)
+                nseqp += 1
+                cases.append(Case(pid, backend, text, md, {"k": "seqparam:" + ctx, "ndev": 0}))
+                pid += 1
         derived = sum(len(v) for v in g._memo.values())
-        gen_stats[backend] = {"skeletons": nsk, "programs": len(seen), "derived_subterms": derived, "argument_scope_programs": nargs, "explicit_aggregate_programs": naggs, "mixed_scope_programs": nmix, "two_partials_and_flatten_programs": nextra, "intermediate_structure_programs": nstruct,
+        gen_stats[backend] = {"skeletons": nsk, "programs": len(seen), "derived_subterms": derived, "argument_scope_programs": nargs, "explicit_aggregate_programs": naggs, "mixed_scope_programs": nmix, "two_partials_and_flatten_programs": nextra, "intermediate_structure_programs": nstruct, "sequence_parameter_programs": nseqp,
                               "bounds": {"k_d0": k0, "k_d1": k1, "k_d2": k2}}
     return cases, gen_stats
 
